@@ -163,6 +163,31 @@ func coerce(v Val, t colType) (Val, error) {
 }
 
 func castTo(v Val, typ string) (Val, error) {
+	if strings.ToLower(typ) == "volumes" {
+		switch r := v.(type) {
+		case nil:
+			return nil, nil
+		case volVal:
+			return r, nil
+		case rowVal:
+			if len(r.items) != 2 {
+				return nil, pgErr("42846", "cannot cast a row of this shape to volumes", "")
+			}
+			in, err := coerce(r.items[0], ctNumeric)
+			if err != nil {
+				return nil, err
+			}
+			out, err := coerce(r.items[1], ctNumeric)
+			if err != nil {
+				return nil, err
+			}
+			if in == nil || out == nil {
+				return nil, unsupported("volumes with a null member")
+			}
+			return volVal{in.(*big.Int), out.(*big.Int)}, nil
+		}
+		return nil, unsupported("cast of %T to volumes", v)
+	}
 	switch strings.ToLower(typ) {
 	case "varchar", "text", "character varying":
 		return coerce(v, ctText)
@@ -306,6 +331,182 @@ func (b *binding) lookup(name string) (Val, bool) {
 type scope struct {
 	binds []*binding
 	outer *scope
+	// group: the rows of the current group when a grouped / aggregated select list is evaluated; plain columns then
+	// resolve against the first row (binds), aggregate functions range over all of them
+	group []joinedRow
+}
+
+// rowVal is the value of a row constructor (a, b, ...) before it is cast to a composite type.
+type rowVal struct{ items []Val }
+
+var aggregateFuncs = map[string]bool{"sum": true, "count": true, "max": true, "min": true, "bool_or": true, "bool_and": true, "aggregate_objects": true, "array_agg": true}
+
+// hasAggregate: does the expression contain an aggregate call (outside sub-selects)?
+func hasAggregate(e sqlExpr) bool {
+	switch n := e.(type) {
+	case *eFunc:
+		if aggregateFuncs[n.name] {
+			return true
+		}
+		for _, a := range n.args {
+			if hasAggregate(a) {
+				return true
+			}
+		}
+	case *eBin:
+		return hasAggregate(n.l) || hasAggregate(n.r)
+	case *eNot:
+		return hasAggregate(n.x)
+	case *eNeg:
+		return hasAggregate(n.x)
+	case *eIsNull:
+		return hasAggregate(n.x)
+	case *eCast:
+		return hasAggregate(n.x)
+	case *eField:
+		return hasAggregate(n.x)
+	case *eRow:
+		for _, a := range n.items {
+			if hasAggregate(a) {
+				return true
+			}
+		}
+	case *eCase:
+		for _, w := range n.whens {
+			if hasAggregate(w[0]) || hasAggregate(w[1]) {
+				return true
+			}
+		}
+		return n.els != nil && hasAggregate(n.els)
+	}
+	return false
+}
+
+// jsonAny converts a value to what encoding/json renders as PostgreSQL's to_jsonb would.
+func jsonAny(v Val) (any, error) {
+	switch x := v.(type) {
+	case nil:
+		return nil, nil
+	case *big.Int:
+		return json.Number(x.String()), nil
+	case string:
+		return x, nil
+	case bool:
+		return x, nil
+	case jsonVal:
+		return x.v, nil
+	case gotime.Time:
+		return x.UTC().Format("2006-01-02T15:04:05.999999"), nil
+	case volVal:
+		return map[string]any{"inputs": json.Number(x.in.String()), "outputs": json.Number(x.out.String())}, nil
+	}
+	return nil, unsupported("json of %T", v)
+}
+
+// evalAggregate computes an aggregate call over the rows of the current group.
+func (x *sqlExec) evalAggregate(n *eFunc, sc *scope) (Val, error) {
+	if len(n.args) != 1 {
+		return nil, unsupported("aggregate %s with %d arguments", n.name, len(n.args))
+	}
+	if _, star := n.args[0].(*eStar); star {
+		return bigFromInt(int64(len(sc.group))), nil
+	}
+	var vals []Val
+	for _, r := range sc.group {
+		v, err := x.eval(n.args[0], &scope{binds: r.binds, outer: sc.outer})
+		if err != nil {
+			return nil, err
+		}
+		vals = append(vals, v)
+	}
+	switch n.name {
+	case "count":
+		c := 0
+		for _, v := range vals {
+			if v != nil {
+				c++
+			}
+		}
+		return bigFromInt(int64(c)), nil
+	case "sum":
+		var acc *big.Int
+		for _, v := range vals {
+			if v == nil {
+				continue
+			}
+			nv, err := coerce(v, ctNumeric)
+			if err != nil {
+				return nil, err
+			}
+			if acc == nil {
+				acc = new(big.Int)
+			}
+			acc.Add(acc, nv.(*big.Int))
+		}
+		if acc == nil {
+			return nil, nil
+		}
+		return acc, nil
+	case "max", "min":
+		var best Val
+		for _, v := range vals {
+			if v == nil {
+				continue
+			}
+			if best == nil {
+				best = v
+				continue
+			}
+			c, err := compareVals(v, best)
+			if err != nil {
+				return nil, err
+			}
+			if (n.name == "max" && c > 0) || (n.name == "min" && c < 0) {
+				best = v
+			}
+		}
+		return best, nil
+	case "bool_or", "bool_and":
+		var acc Val
+		for _, v := range vals {
+			if v == nil {
+				continue
+			}
+			b, ok := v.(bool)
+			if !ok {
+				return nil, unsupported("bool aggregate over a non-boolean")
+			}
+			if acc == nil {
+				acc = b
+			} else if n.name == "bool_or" {
+				acc = acc.(bool) || b
+			} else {
+				acc = acc.(bool) && b
+			}
+		}
+		return acc, nil
+	case "aggregate_objects":
+		// create aggregate aggregate_objects(jsonb) (sfunc = jsonb_concat, stype = jsonb, initcond = '{}')
+		out := map[string]any{}
+		for _, v := range vals {
+			if v == nil {
+				return nil, nil // jsonb_concat is strict: a NULL input makes the state NULL... and it stays NULL
+			}
+			j, err := coerce(v, ctJSONB)
+			if err != nil {
+				return nil, err
+			}
+			m, ok := j.(jsonVal).v.(map[string]any)
+			if !ok {
+				return nil, unsupported("aggregate_objects over a non-object")
+			}
+			for k, e := range m {
+				out[k] = e
+			}
+		}
+		return jsonVal{out}, nil
+	}
+	return nil, unsupported("aggregate %s", n.name)
 }
 
 func (s *scope) resolve(c *eCol) (Val, error) {
@@ -523,7 +724,39 @@ func (x *sqlExec) eval(e sqlExpr, sc *scope) (Val, error) {
 		}
 		return n.not, nil
 	case *eFunc:
+		if aggregateFuncs[n.name] {
+			if sc == nil || sc.group == nil {
+				return nil, unsupported("aggregate %s outside a grouped select list", n.name)
+			}
+			return x.evalAggregate(n, sc)
+		}
 		return x.evalFunc(n, sc)
+	case *eRow:
+		rv := rowVal{}
+		for _, it := range n.items {
+			v, err := x.eval(it, sc)
+			if err != nil {
+				return nil, err
+			}
+			rv.items = append(rv.items, v)
+		}
+		return rv, nil
+	case *eField:
+		v, err := x.eval(n.x, sc)
+		if err != nil || v == nil {
+			return nil, err
+		}
+		vv, ok := v.(volVal)
+		if !ok {
+			return nil, unsupported("field %s of %T", n.name, v)
+		}
+		switch n.name {
+		case "inputs":
+			return vv.in, nil
+		case "outputs":
+			return vv.out, nil
+		}
+		return nil, pgErr("42703", "column \""+n.name+"\" not found in data type volumes", "")
 	case *eBin:
 		switch n.op {
 		case "and", "or":
@@ -740,6 +973,31 @@ func (x *sqlExec) evalFunc(f *eFunc, sc *scope) (Val, error) {
 		args[i] = v
 	}
 	switch f.name {
+	case "json_build_object", "jsonb_build_object":
+		if len(args)%2 != 0 {
+			return nil, pgErr("22023", "argument list must have even number of elements", "")
+		}
+		out := map[string]any{}
+		for i := 0; i < len(args); i += 2 {
+			if args[i] == nil {
+				return nil, pgErr("22004", "argument "+fmt.Sprint(i+1)+" cannot be null", "")
+			}
+			var k string
+			switch kv := args[i].(type) {
+			case string:
+				k = kv
+			case *big.Int:
+				k = kv.String()
+			default:
+				return nil, unsupported("json_build_object key of %T", args[i])
+			}
+			v, err := jsonAny(args[i+1])
+			if err != nil {
+				return nil, err
+			}
+			out[k] = v
+		}
+		return jsonVal{out}, nil
 	case "transaction_date":
 		if len(args) != 0 {
 			return nil, unsupported("transaction_date with arguments")
